@@ -337,7 +337,7 @@ func report(vdir, prop, tier string, seed int, results []*engine.UnitResult, t0 
 				}
 			}
 			if verbose {
-				fmt.Printf("  %-8s %-10s %s\n", o.Status, o.Solver, o.Name)
+				fmt.Printf("  %-8s %-10s %s   [%s @%s]\n", o.Status, o.Solver, o.Name, o.Desc, o.Pos)
 			}
 		}
 	}
